@@ -21,8 +21,8 @@ class P(EngProp):
     id = "C07"
     rule = ("per case one rewriting stage (or a chain of two) after an always-true selector over 2-8 records with random attributes: label_format renames (dst absent/present, "
             "src absent/present, self-rename, chains), label_format templates, line_format templates (text, .label, __line__, __timestamp__, ToUpper/ToLower, a call failing on "
-            "some records only, a call failing always), drop/keep with names and =,!=,=~,!~ value matchers incl. name+matcher on one label, two or three matchers on the same label and values containing one another, "
-            "decolorize on lines with CSI sequences. For every entry the generator computes the expected line and the expected full label set from the LogQL reading of the stage; "
+            "some records only, a call failing always), the same line_format template in two stages of one query and one query evaluated twice in one process, drop/keep with names and =,!=,=~,!~ value matchers incl. name+matcher on one label, two or three matchers on the same label and values containing one another, "
+            "decolorize on lines with CSI sequences introduced by ESC [ or by the single 8-bit introducer U+009B. For every entry the generator computes the expected line and the expected full label set from the LogQL reading of the stage; "
             "the check demands them on the observed result, demands that no entry is dropped (count = N), and compares with the model.")
 
     def gen(self, rng, tier):
@@ -30,7 +30,7 @@ class P(EngProp):
         g = EGen(rng)
         cases = []
         for i in range(n):
-            kind = ["rename", "mixed", "tmpl", "linefmt", "linefmt", "drop", "keep", "decolor", "chain", "rename", "mixed", "drop"][i % 12]
+            kind = ["rename", "mixed", "tmpl", "linefmt", "linefmt", "drop", "keep", "decolor", "chain", "rename", "mixed", "drop", "dupfmt", "twice"][i % 14]
             cases.append(self.one(rng, g, kind))
         return cases
 
@@ -46,7 +46,8 @@ class P(EngProp):
                 if rng.random() < 0.75:
                     k = rng.randint(0, len(base))
                     k2 = rng.randint(k, len(base))
-                    col = base[:k] + ESC + "[" + rng.choice(["31", "1;32", "0", "38;5;12", ""]) + "m" + base[k:k2] + (ESC + "[0m" if rng.random() < 0.6 else "") + base[k2:]
+                    csi = rng.choice([ESC + "[", ESC + "[", "\u009b"])       # 7-bit and 8-bit (C1) introducer
+                    col = base[:k] + csi + rng.choice(["31", "1;32", "0", "38;5;12", ""]) + "m" + base[k:k2] + (csi + "0m" if rng.random() < 0.6 else "") + base[k2:]
                     lines.append(col); plain.append(base)
                     deco.append((B(col), B(base)))
                 else:
@@ -156,7 +157,27 @@ class P(EngProp):
                 return m.get(l, l), d
             apply(f)
 
-        if kind == "rename":
+        twice = False
+        if kind in ("dupfmt", "twice"):
+            # the SAME template text in two stages of one query (each stage has its own line / timestamp), or one query evaluated
+            # twice in one process: a template is bound to the stage instance and the evaluation it was compiled for
+            t = rng.choice(["<{{ __line__ }}>", "{{ __timestamp__ | unixEpochNanos }}:{{ __line__ }}", "{{ .app }}/{{ __line__ }}"])
+            items = {"<{{ __line__ }}>": [("text", "<"), ("line",), ("text", ">")],
+                     "{{ __timestamp__ | unixEpochNanos }}:{{ __line__ }}": [("ts",), ("text", ":"), ("line",)],
+                     "{{ .app }}/{{ __line__ }}": [("label", "app"), ("text", "/"), ("line",)]}[t]
+            coq = {"<{{ __line__ }}>": "[TText %s; TLine; TText %s]" % (cbytes(B("<")), cbytes(B(">"))),
+                   "{{ __timestamp__ | unixEpochNanos }}:{{ __line__ }}": "[TTsNanos; TText %s; TLine]" % cbytes(B(":")),
+                   "{{ .app }}/{{ __line__ }}": "[TLabel %s; TText %s; TLine]" % (cbytes(B("app")), cbytes(B("/")))}[t]
+            for _ in range(2 if kind == "dupfmt" else 1):
+                st = {"k": "linefmt", "t": t, "items": items, "coq": "ELineFormat %s" % coq}
+                pipe.append(st)
+
+                def f(r, l, d, items=items):
+                    v = expand_py(items, r["ts"], l, d)
+                    return (v, d) if v is not None else (l, set_error(d, E_TMPL))
+                apply(f)
+            twice = kind == "twice"
+        elif kind == "rename":
             do_rename()
         elif kind == "mixed":
             do_mixed()
@@ -173,12 +194,15 @@ class P(EngProp):
                 {"rename": do_rename, "tmpl": do_tmpl, "linefmt": do_linefmt, "drop": lambda: do_dropkeep("drop"), "keep": lambda: do_dropkeep("keep")}[k]()
         sel = g.selector(extra=False)
         q = g.query_text(sel, pipe, "spaced")
-        rels = ["RelCount 0 %d" % len(recs)]
-        for r, l, d in exp:
-            rels.append("RelLine 0 %s %s" % (cZ(r["ts"]), cbytes(l)))
-            rels.append("RelLabels 0 %s %s" % (cZ(r["ts"]), labels_coq(d)))
+        rels = []
+        nev = 2 if twice else 1
+        for ev in range(nev):
+            rels.append("RelCount %d %d" % (ev, len(recs)))
+            for r, l, d in exp:
+                rels.append("RelLine %d %s %s" % (ev, cZ(r["ts"]), cbytes(l)))
+                rels.append("RelLabels %d %s %s" % (ev, cZ(r["ts"]), labels_coq(d)))
         return {"kind": kind, "recs": [g.rec_json(r) for r in recs], "oracle": oracles_coq(decolor=dedup(deco)),
-                "evals": [{"q": b64e(q), "qcoq": g.query_coq(sel, pipe), "label": [], "line": [], "limit": 0}], "rels": rels,
+                "evals": [{"q": b64e(q), "qcoq": g.query_coq(sel, pipe), "label": [], "line": [], "limit": 0}] * nev, "rels": rels,
                 "stages": [s["k"] for s in pipe], "note": "expected line and full label set of every entry computed by the generator"}
 
     @staticmethod
